@@ -108,6 +108,8 @@ LABELSETS = {
     "bin_int": [0, 1],
     "bin_str": ["a", "b"],
     "bin_neg": [-1, 1],
+    "bin_12": [1, 2],     # binary integer encodings whose categories are not {0, 1} but contain 0 or 1
+    "bin_m10": [-1, 0],
     "mc_int": [0, 1, 2],
     "mc_str": ["x", "y", "z"],
     "mc4": [3, 5, 7, 9],
@@ -235,8 +237,8 @@ def gen_plan(seed, index, tier):
     elif mode == "equiv":
         want_incomplete = rng.random() < 0.1
         for _attempt in range(200):
-            ykind = rng.choice(["bin_int", "bin_str", "mc_int", "mc_str", "cont", "mc4"])
-            akind = rng.choice(["bin_int", "bin_str", "mc_int", "cont"])
+            ykind = rng.choice(["bin_int", "bin_str", "mc_int", "mc_str", "cont", "mc4", "bin_12", "bin_m10", "bin_neg"])
+            akind = rng.choice(["bin_int", "bin_str", "mc_int", "cont", "bin_12", "bin_m10"])
             if want_incomplete and ykind not in ("mc_int", "mc_str", "mc4") and akind != "mc_int":
                 continue
             n = rng.randint(6, 40)
@@ -294,8 +296,8 @@ def gen_plan(seed, index, tier):
         plan["xq"] = [[round(rng.uniform(-1.5, 1.5), 3) for _ in range(d)] for _ in range(rng.randint(1, 8))]
     else:  # labels
         engine = rng.choice(["stub", "stub", "torch"])
-        ykind = rng.choice(["bin_int", "bin_str", "bin_neg", "mc_int", "mc_str", "mc4", "cont"])
-        akind = rng.choice(["bin_int", "mc_int", "cont"])
+        ykind = rng.choice(["bin_int", "bin_str", "bin_neg", "bin_12", "bin_m10", "mc_int", "mc_str", "mc4", "cont"])
+        akind = rng.choice(["bin_int", "mc_int", "cont", "bin_12"])
         n = rng.randint(8, 24)
         d = rng.randint(1, 3)
         nq = rng.randint(3, 12)
